@@ -16,6 +16,7 @@
   found there and repaired; D21 is recorded.
 -/
 import JV.Proofs.StreamSource
+import JV.Proofs.JsonParser
 namespace JV.Props.C03
 open JV Model Model.StreamSource
 
@@ -67,8 +68,27 @@ theorem stream_refines_flat (content : Bytes) (k : Nat) (hk : 0 < k) (ns : List 
   have := key ns (init content k) (inv_init content k hk) (by simpa [pending, init] using hsum)
   simpa [pending, init] using this
 
+
+/-! ### the JSON push parser (Model: JV.Model.JsonParser, tied state by state to json_parser.hpp by the `parser-model-pieces` stream) -/
+/-- however a text is cut into pieces (any number of pieces, any sizes, empty pieces included), feeding the pieces one after the
+    other and then signalling end of input gives the outcome of feeding the whole text: same events, same error code, same state -/
+theorem json_chunk_independent (cfg : Model.JsonParser.Cfg) (chunks : List Bytes) : Model.JsonParser.runChunks cfg chunks = Model.JsonParser.run cfg chunks.flatten := by
+  unfold Model.JsonParser.runChunks Model.JsonParser.run; rw [Model.JsonParser.feed_chunks]
+
+/-- in particular for a two-way split at any offset -/
+theorem json_split_independent (cfg : Model.JsonParser.Cfg) (text : Bytes) (i : Nat) :
+    Model.JsonParser.runChunks cfg [text.take i, text.drop i] = Model.JsonParser.run cfg text := by
+  rw [json_chunk_independent]; simp
+
+/-- once an error is reported nothing that follows is looked at -/
+theorem json_error_is_final (cfg : Model.JsonParser.Cfg) (s : Model.JsonParser.St) (more : Bytes) (h : s.err.isSome) : Model.JsonParser.feed cfg s more = s :=
+  Model.JsonParser.feed_err cfg s more h
+
 /-! ### non-vacuity -/
 example : readAll (init [1, 2, 3, 4, 5, 6, 7] 3) [2, 4, 1] = [[1, 2], [3, 4, 5, 6], [7]] := by decide
 example : (read (init [1, 2, 3] 2) 5).1 = 3 := by decide
+
+example : (Model.JsonParser.runChunks ⟨8, false, false⟩ [[91, 49], [], [44, 50, 93]]).evs = (Model.JsonParser.run ⟨8, false, false⟩ [91, 49, 44, 50, 93]).evs ∧
+    Model.JsonParser.accepted (Model.JsonParser.run ⟨8, false, false⟩ [91, 49, 44, 50, 93]) = true := by decide
 
 end JV.Props.C03
